@@ -1,5 +1,5 @@
 """property id -> suites, evidence rule, trusted base additions"""
-from suites import props_tree, prims
+from suites import props_tree, prims, monitor
 
 RULE_TREE = ("random operation histories (weighted words over fit / refine / recluster / set_merge / setters / "
              "delete_internal_nodes / reset / malformed fit; feature counts 1..24, 63, 64, 65, 100, 256; prototype+noise, "
@@ -15,6 +15,11 @@ RULE_MERGE = ("generated (old, nominee) summaries of consistent sums and counts 
               "criteria x thresholds x tolerances, each call made twice, calls shuffled across instances; compared with the model's "
               "accept; non-trivial = per-criterion min(#accepted, #rejected)")
 
+RULE_MON = ("the real monitor update step and the real get_peak_memory_gib run as gated threads on real files; every merge of the "
+            "writer's file effects (open, flush, replace) with the steps (exists, open, read) of up to two reader runs for 1-3 samples "
+            "(sampled in quick tier), plus random longer schedules; reader results compared with the model's run for the same schedule; "
+            "non-trivial = distinct schedule in which a reader returns a value")
+
 PROPS: dict = {
     "C01": {"suites": [props_tree.c01], "rule": RULE_TREE},
     "C02": {"suites": [props_tree.c02], "rule": RULE_TREE},
@@ -23,4 +28,5 @@ PROPS: dict = {
     "C10": {"suites": [prims.suite_merge], "rule": RULE_MERGE},
     "C11": {"suites": [prims.suite_isim], "rule": RULE_PRIM},
     "C12": {"suites": [prims.suite_bits], "rule": RULE_PRIM},
+    "C20": {"suites": [monitor.suite_monitor], "rule": RULE_MON, "proof_modules": ["BBProps.C20", "BBProofs.Monitor", "BBModel.Monitor"]},
 }
